@@ -97,7 +97,8 @@ MUTANTS = [
     ('C13', 'shallow-value-stack-copy', [R('lark/parsers/lalr_parser_state.py', 'deepcopy(self.value_stack) if deepcopy_values else copy(self.value_stack)', 'copy(self.value_stack)')]),
     ('C13', 'lexer-state-copy-shares-line-counter', [R('lark/lexer.py', 'return type(self)(self.text, copy(self.line_ctr), self.last_token)', 'return type(self)(self.text, self.line_ctr, self.last_token)')]),
     ('C13', 'copy-keeps-original-lexer-thread', [R('lark/parsers/lalr_interactive_parser.py', '        parser_state.lexer = lexer_thread\n', '')]),
-    ('C13', 'accepts-ignores-end', [R('lark/parsers/lalr_interactive_parser.py', "            if t.isupper(): # is terminal?", "            if t.isupper() and t != '$END': # is terminal?")]),
+    ('C13', 'accepts-ignores-end', [R('lark/parsers/lalr_interactive_parser.py', "            if t == t.upper(): # is terminal?", "            if t == t.upper() and t != '$END': # is terminal?")]),
+    ('C13', 'accepts-tells-terminals-by-isupper (revert of the accepts fix)', [R('lark/parsers/lalr_interactive_parser.py', "            if t == t.upper(): # is terminal?", "            if t.isupper(): # is terminal?")]),
     ('C13', 'on-error-skips-two-characters', [R('lark/parsers/lalr_parser.py', 's.line_ctr.feed(s.text.text[p:p+1])', 's.line_ctr.feed(s.text.text[p:p+2])')]),
     ('C13', 'resume-forgets-last-token', [R('lark/parsers/lalr_interactive_parser.py', 'last_token=self.lexer_thread.state.last_token', 'last_token=None')]),
     ('C13', 'feed-token-rolls-back-shallowly', [R('lark/parsers/lalr_interactive_parser.py', "        return self.parser_state.feed_token(token, token.type == '$END')\n",
@@ -114,6 +115,7 @@ MUTANTS = [
                                                                           R('lark/indenter.py', "    def process(self, stream):\n        return self._process(stream)", "    def process(self, stream):\n        self.paren_level = 0\n        self.indent_level = [0]\n        return self._process(stream)")]),
     ('C18', 'single-dedent-per-newline', [R('lark/indenter.py', '            while indent < self.indent_level[-1]:\n                self.indent_level.pop()', '            if indent < self.indent_level[-1]:\n                self.indent_level.pop()')]),
     ('C18', 'tabs-count-4', [R('lark/indenter.py', "indent_str.count('\\t') * self.tab_len", "indent_str.count('\\t') * 4")]),
+    ('C10', 'open-from-package-appends-to-callers-list (revert of 7468301)', [R('lark/lark.py', "        options['import_paths'] = [*options.get('import_paths', ()), package_loader]\n", "        options.setdefault('import_paths', [])\n        options['import_paths'].append(package_loader)\n")]),
     ('C12', 'load-errors-narrowed-to-unpickling-error', [R('lark/lark.py', '                except Exception: # We should probably narrow done which errors we catch here.', '                except pickle.UnpicklingError:')]),
     ('C12', 'version-dropped-from-key', [R('lark/lark.py', "s = repr((grammar, options_key, __version__, sys.version_info[:2],", "s = repr((grammar, options_key, sys.version_info[:2],")]),
     ('C12', 'python-version-dropped-from-key', [R('lark/lark.py', "s = repr((grammar, options_key, __version__, sys.version_info[:2],", "s = repr((grammar, options_key, __version__,")]),
